@@ -3174,6 +3174,9 @@ int32 encryptRecord(ssl_t *ssl, int32 type, int32 hsMsgType,
     }
 
     ptLen = (int32) (*c - encryptStart);
+#ifdef MATRIXSSL_VERIF
+    MATRIX_VERIF_EV(MXV_SEAL, ssl, type, hsMsgType, pt, ptLen);
+#endif
 # ifdef USE_TLS
 #  ifdef USE_TLS_1_1
     if ((ssl->flags & SSL_FLAGS_WRITE_SECURE) &&
